@@ -225,6 +225,10 @@ func (e *Exec) Explore(h *HarnessCfg, inst int, deadline time.Time, prefix []Dec
 			e.Inconclusive = append(e.Inconclusive, fmt.Sprintf("bound: path budget %d exhausted", maxPaths))
 			break
 		}
+		if atomic.LoadInt32(&memExceeded) != 0 {
+			e.Inconclusive = append(e.Inconclusive, "bound: memory budget exceeded")
+			break
+		}
 		if !deadline.IsZero() && time.Now().After(deadline) {
 			e.Inconclusive = append(e.Inconclusive, "bound: time budget exhausted")
 			break
